@@ -291,8 +291,7 @@ fn optimize_projections(
         | LogicalPlan::Filter(_)
         | LogicalPlan::Repartition(_)
         | LogicalPlan::Union(_)
-        | LogicalPlan::SubqueryAlias(_)
-        | LogicalPlan::Distinct(Distinct::On(_)) => {
+        | LogicalPlan::SubqueryAlias(_) => {
             // Pass index requirements from the parent as well as column indices
             // that appear in this plan's expressions to its child. All these
             // operators benefit from "small" inputs, so the projection_beneficial
@@ -302,6 +301,20 @@ fn optimize_projections(
                 .map(|input| {
                     indices
                         .clone()
+                        .with_projection_beneficial()
+                        .with_plan_exprs(&plan, input.schema())
+                })
+                .collect::<Result<_>>()?
+        }
+        LogicalPlan::Distinct(Distinct::On(_)) => {
+            // `DISTINCT ON` computes its output columns from its own
+            // expressions, so the parent's indices (which refer to that output
+            // schema) say nothing about the child: only the columns that
+            // appear in this plan's expressions are required.
+            plan.inputs()
+                .into_iter()
+                .map(|input| {
+                    RequiredIndices::new()
                         .with_projection_beneficial()
                         .with_plan_exprs(&plan, input.schema())
                 })
